@@ -130,6 +130,14 @@ func build(v vec) concrete {
 				break
 			}
 		}
+	case "halfntt": // 1 modulo half the root order only (friendly for a ring of half the degree / of the other type)
+		for k := (uint64(1)<<44)/nth + 1; ; k++ {
+			x := k*nth + nth/2 + 1
+			if new(big.Int).SetUint64(x).ProbablyPrime(32) {
+				q[1] = x
+				break
+			}
+		}
 	case "dup":
 		q[2] = q[1]
 	case "shared":
@@ -159,6 +167,14 @@ func build(v vec) concrete {
 	case "nonntt":
 		for x := uint64(1)<<55 + 3; ; x += 4 {
 			if x%nth != 1 && new(big.Int).SetUint64(x).ProbablyPrime(32) {
+				p[0] = x
+				break
+			}
+		}
+	case "halfntt":
+		for k := (uint64(1)<<55)/nth + 1; ; k++ {
+			x := k*nth + nth/2 + 1
+			if new(big.Int).SetUint64(x).ProbablyPrime(32) {
 				p[0] = x
 				break
 			}
